@@ -3,7 +3,7 @@ import json
 import os
 
 import common
-from . import gradual, scoregen, decoder, convert, builders, modsrep, attrs
+from . import gradual, scoregen, decoder, convert, builders, modsrep, attrs, strains
 
 REGISTRY = {}
 REGISTRY.update(gradual.REGISTRY)
@@ -13,11 +13,13 @@ REGISTRY.update(convert.REGISTRY)
 REGISTRY.update(builders.REGISTRY)
 REGISTRY.update(modsrep.REGISTRY)
 REGISTRY.update(attrs.REGISTRY)
+REGISTRY.update(strains.REGISTRY)
 
 
 def setup():
     """Build the harness (default features) and parse every spec module with SANY."""
-    common.build_harness()
+    for fs in ("", "raw_strains", "sync", "raw_strains,sync"):
+        common.build_harness(fs)
     bad = 0
     for f in sorted(os.listdir(common.SPEC)):
         if f.endswith(".tla"):
@@ -36,7 +38,7 @@ def replay(path):
     obj = json.load(open(path))
     prop = obj["property"]
     kind = obj["replay"].get("kind")
-    for mod in (gradual, scoregen, decoder, convert, builders, modsrep, attrs):
+    for mod in (gradual, scoregen, decoder, convert, builders, modsrep, attrs, strains):
         if kind in mod.REPLAY_KINDS:
             return mod.replay(prop, obj)
     common.log("no replay handler for kind %r" % kind)
